@@ -217,11 +217,13 @@ func hangKind(d *driver.Driver) string {
 		qs := unexported(reflect.ValueOf(ctx).Elem(), "queues")
 		for i := 0; i < qs.Len(); i++ {
 			q := qs.Index(i).Interface().(*driver.CommandQueue)
-			cmds := unexported(reflect.ValueOf(q).Elem(), "commands")
-			if cmds.Len() == 0 {
+			if q.NumCommand() == 0 { // exported accessors only: no assumption about how the queue stores its commands
 				continue
 			}
-			c := cmds.Index(0).Interface().(driver.Command)
+			c := q.Peek()
+			if c == nil {
+				continue
+			}
 			switch c.(type) {
 			case *driver.MemCopyH2DCommand, *driver.MemCopyD2HCommand:
 				if q.IsRunning && len(c.GetReqs()) == 0 {
@@ -241,12 +243,15 @@ func dumpQueues(d *driver.Driver) {
 		qs := unexported(reflect.ValueOf(ctx).Elem(), "queues")
 		for i := 0; i < qs.Len(); i++ {
 			q := qs.Index(i).Interface().(*driver.CommandQueue)
-			cmds := unexported(reflect.ValueOf(q).Elem(), "commands")
-			for k := 0; k < cmds.Len(); k++ {
-				c := cmds.Index(k).Interface().(driver.Command)
-				extra := ""
+			// the head command only (exported accessors: no assumption about how the queue stores its commands)
+			for k := 0; k < 1 && q.NumCommand() > 0; k++ {
+				c := q.Peek()
+				if c == nil {
+					break
+				}
+				extra := fmt.Sprintf(" (%d queued)", q.NumCommand())
 				if h, ok := c.(*driver.MemCopyH2DCommand); ok {
-					extra = fmt.Sprintf(" dst=%#x srcType=%T", uint64(h.Dst), h.Src)
+					extra += fmt.Sprintf(" dst=%#x srcType=%T", uint64(h.Dst), h.Src)
 				}
 				fmt.Fprintf(os.Stderr, "PLATLAT-QUEUED ctx%d queue%d(gpu %d, running=%v) #%d %T pendingReqs=%d%s\n", ci, i, q.GPUID, q.IsRunning, k, c, len(c.GetReqs()), extra)
 				for _, r := range c.GetReqs() {
